@@ -6,6 +6,65 @@ pub mod duke_proj;
 pub mod sdiff;
 pub mod asm;
 pub mod gen;
+pub mod suite;
 
 pub use model::*;
 pub use parse::{parse, ParseError, Parsed, Role, FieldMapEntry};
+
+pub mod corpus {
+	//! Loading the vendored javac corpus and (optionally) the JDK's own classes.
+	use std::path::{Path, PathBuf};
+
+	fn walk(p: &Path, out: &mut Vec<PathBuf>) {
+		if let Ok(rd) = std::fs::read_dir(p) {
+			let mut entries: Vec<PathBuf> = rd.flatten().map(|e| e.path()).collect();
+			entries.sort();
+			for p in entries {
+				if p.is_dir() {
+					walk(&p, out)
+				} else if p.extension().is_some_and(|e| e == "class") {
+					out.push(p)
+				}
+			}
+		}
+	}
+
+	/// every `.class` below `dir`, sorted by path: (path relative to dir, bytes)
+	pub fn load_dir(dir: &Path) -> Vec<(String, Vec<u8>)> {
+		let mut files = Vec::new();
+		walk(dir, &mut files);
+		files.into_iter().filter_map(|p| {
+			let b = std::fs::read(&p).ok()?;
+			Some((p.strip_prefix(dir).unwrap_or(&p).display().to_string(), b))
+		}).collect()
+	}
+
+	/// the vendored corpus under `<verif root>/corpus/classes`
+	pub fn vendored(verif_root: &Path) -> Vec<(String, Vec<u8>)> {
+		load_dir(&verif_root.join("corpus").join("classes"))
+	}
+
+	/// Extracts `java.base` from the sandbox JDK with `jimage` into `scratch` (optional breadth for
+	/// thorough tiers; an empty result means no JDK image is available, which is not an error).
+	pub fn jdk_java_base(scratch: &Path) -> Vec<(String, Vec<u8>)> {
+		let javac = match std::process::Command::new("sh").arg("-c").arg("readlink -f \"$(command -v javac)\"").output() {
+			Ok(o) if o.status.success() => String::from_utf8_lossy(&o.stdout).trim().to_owned(),
+			_ => return Vec::new(),
+		};
+		let home = match Path::new(&javac).parent().and_then(|p| p.parent()) {
+			Some(h) => h.to_path_buf(),
+			None => return Vec::new(),
+		};
+		let modules = home.join("lib").join("modules");
+		if !modules.exists() {
+			return Vec::new();
+		}
+		let _ = std::fs::remove_dir_all(scratch);
+		let ok = std::process::Command::new(home.join("bin").join("jimage"))
+			.arg("extract").arg("--dir").arg(scratch).arg("--include").arg("regex:/java.base/.*").arg(&modules)
+			.output().map(|o| o.status.success()).unwrap_or(false);
+		let v = if ok { load_dir(scratch) } else { Vec::new() };
+		let _ = std::fs::remove_dir_all(scratch);
+		v
+	}
+}
